@@ -2063,16 +2063,14 @@ func (m *repoManager) findMatch(kvv kvVersions, v dvid.VersionID) (*storage.KeyV
 		// We have multiple parents so this is a merge.  Traverse each path up.
 		var foundKV *storage.KeyValue
 		var foundV dvid.VersionID
-		foundVs := make(map[dvid.VersionID]struct{})
+		foundVs := make(map[dvid.VersionID]*storage.KeyValue)
 		for _, parent := range parents {
 			matchKV, matchV, err := m.findMatch(kvv, parent)
 			if err != nil {
 				return nil, parent, err
 			}
 			if matchKV != nil && matchKV.K != nil && !matchKV.K.IsTombstone() {
-				foundKV = matchKV
-				foundV = matchV
-				foundVs[matchV] = struct{}{}
+				foundVs[matchV] = matchKV
 			}
 		}
 		// Remove any matches that are in invalidated versions.
@@ -2090,6 +2088,10 @@ func (m *repoManager) findMatch(kvv kvVersions, v dvid.VersionID) (*storage.KeyV
 			for _, bv := range badV {
 				delete(foundVs, bv)
 			}
+		}
+		// The surviving match (if unique) is the answer, not whichever parent happened to be visited last.
+		for fv, fkv := range foundVs {
+			foundKV, foundV = fkv, fv
 		}
 		// Make sure we have only one kv on all paths up because if we do not,
 		// it's a failure in the past merge -- we should've had a kv at this
